@@ -117,16 +117,11 @@ func (g *Gateway) GraphQLHandler(w http.ResponseWriter, r *http.Request) {
 		// Get the plan, and return a 400 if we can't get the plan
 		plan, err := g.GetPlans(requestContext)
 		if err != nil {
-			response, err := json.Marshal(formatErrorsWithCode(nil, err, "GRAPHQL_VALIDATION_FAILED"))
-			if err != nil {
-				// if we couldn't serialize the response then we're in internal error territory
-				response, err = json.Marshal(formatErrors(err))
-				if err != nil {
-					response, _ = json.Marshal(formatErrors(err))
-				}
-			}
-			emitResponse(w, http.StatusBadRequest, string(response))
-			return
+			// the other operations of a batch are still answered, each at its own index
+			statusCode = http.StatusBadRequest
+			results[opNum] = formatErrorsWithCode(nil, err, "GRAPHQL_VALIDATION_FAILED")
+
+			continue
 		}
 
 		opWg.Add(1)
